@@ -288,7 +288,9 @@ func (s *BaseVisitor) EnterOC_MergeAction(c *parser.OC_MergeActionContext) {}
 
 func (s *BaseVisitor) EnterOC_Create(c *parser.OC_CreateContext) {}
 
-func (s *BaseVisitor) EnterOC_CreateUnique(c *parser.OC_CreateUniqueContext) {}
+func (s *BaseVisitor) EnterOC_CreateUnique(c *parser.OC_CreateUniqueContext) {
+	s.newUnsupportedRuleError(c)
+}
 
 func (s *BaseVisitor) EnterOC_Set(c *parser.OC_SetContext) {}
 
